@@ -5,5 +5,5 @@ IDS=${@:-C01 C02 C03 C04 C05 C06 C07 C08 C09 C10 C11 C12 C13 C14 C15 C16 C17 C18
 for c in $IDS; do
   ./check $c --tier $TIER > /tmp/runall_$c.out 2>&1; rc=$?
   echo "$c rc=$rc $(grep -v '^KNOWN\|^   \|^VIOLATION\|Warning\|return total' /tmp/runall_$c.out | tail -1)"
-  grep -A2 '^VIOLATION' /tmp/runall_$c.out | head -30
+  grep -A2 '^VIOLATION' /tmp/runall_$c.out | head -400
 done
